@@ -4,6 +4,7 @@
 import PowHsm.Spec.C09
 import PowHsm.Proofs.Monad
 import PowHsm.Proofs.BringUp
+import PowHsm.Proofs.BringUpServe
 namespace PowHsm
 namespace Props.C09
 open Ledger Generated Dongle M
@@ -155,6 +156,45 @@ example :
 example : supports (5, 4, 1) (5, 4, 1) = true ∧ supports (5, 4, 1) (5, 3, 9) = true ∧
     supports (5, 4, 1) (5, 4, 2) = false ∧ supports (5, 4, 1) (5, 5, 0) = false ∧
     supports (5, 4, 1) (4, 0, 0) = false := by decide
+
+/-! ### the converse: a safe device is served -/
+
+/-- **it starts serving when the device is onboarded and in signer mode with a supported signer
+    version**: against the answers of such a device (onboarded flag 1, mode 3, a version the
+    manager supports, a 69-byte parameters answer naming a network) — whatever follows in the
+    script and whatever the platform — the bring-up ends in "served" -/
+theorem serves_from_signer {w : World} {a b c : UInt8} {params : Bytes} {rest : List Resp}
+    (h : w.script = .data [0x80, 1, a, b, c] :: .data [0x80, 3] :: .data [0x80, 1, a, b, c] ::
+          .data (0x80 :: 0x11 :: 0 :: params) :: rest)
+    (hc : w.conns.head? ≠ some false)
+    (hv : supports APP_VERSION (a.toNat, b.toNat, c.toNat) = true) (hp : ParamsOk params) :
+    (bringUp w).val = .ok "served" :=
+  bringUp_serves_signer h hc hv hp
+
+/-- **…or ends up there after a successful unlock that required no PIN change**: an onboarded
+    device in bootloader mode that runs a supported UI version, echoes correctly, has at least
+    `MIN_AVAILABLE_RETRIES` PIN retries left and accepts the PIN (every PIN byte acknowledged, a
+    non-zero unlock answer), with a PIN that needs no change, and that — whatever became of the
+    exit command — is found in signer mode with a supported signer version after the reconnection,
+    is served (Ledger and TCP platforms; any PIN length) -/
+theorem serves_after_unlock {w : World} {pin : Bytes} {y0 y1 y2 o a b c x r ub sa sb sc : UInt8}
+    {acks : List Bytes} {er : Resp} {params : Bytes} {rest : List Resp}
+    (h : w.script = Resp.data [0x80, 1, y0, y1, y2] :: Resp.data [0x80, 2] ::
+          Resp.data [0x80, o, a, b, c] :: Resp.data [0x80, 0x02, 0x41, 0x42, 0x43] :: Resp.data [0x80, x, r] ::
+          (acks.map Resp.data ++ Resp.data [0x80, 0xFE, ub] :: er :: Resp.data [0x80, 3] ::
+           Resp.data [0x80, 1, sa, sb, sc] :: Resp.data (0x80 :: 0x11 :: 0 :: params) :: rest))
+    (hplat : w.platform ≠ .sgx) (hpin : w.pin = some { pin := pin, needsChange := false })
+    (hc1 : w.conns.head? ≠ some false) (hc2 : (w.conns.drop 1).head? ≠ some false)
+    (huv : supports UI_VERSION (a.toNat, b.toNat, c.toNat) = true) (hr : MIN_AVAILABLE_RETRIES ≤ r.toNat)
+    (hl : acks.length = pin.length) (hub : ub ≠ 0)
+    (hav : supports APP_VERSION (sa.toNat, sb.toNat, sc.toNat) = true) (hp : ParamsOk params) :
+    (bringUp w).val = .ok "served" :=
+  bringUp_serves_bootloader h hplat hpin hc1 hc2 huv hr hl hub hav hp
+
+/-- non-vacuity: the hypotheses of `serves_after_unlock` are met by a concrete device -/
+example : ParamsOk (List.replicate 68 0 ++ [2]) ∧ supports UI_VERSION (5, 4, 1) = true ∧
+    supports APP_VERSION (5, 3, 7) = true ∧ MIN_AVAILABLE_RETRIES ≤ (3 : UInt8).toNat := by
+  refine ⟨⟨by decide, by decide⟩, by decide, by decide, by decide⟩
 
 end Props.C09
 end PowHsm
